@@ -55,7 +55,10 @@ def check(chk):
         if isinstance(n, ast.ExceptHandler) and n.type is not None and src(n.type) == 'StopIteration':
             for st in n.body:
                 if isinstance(st, ast.Assign):
-                    dflt = folder.eval(st.value)
+                    try:
+                        dflt = folder.eval(st.value, env={'ProtocolVersion': consts, 'cls': consts})
+                    except Unfoldable as e:
+                        raise AnalysisError('get_lower_supported: StopIteration default not foldable: %s' % e)
     if dflt is None:
         raise AnalysisError('get_lower_supported: StopIteration default not found')
     domain = sorted(set(sup) | set([min(sup) - 1, max(sup) + 1, 0, 7, 0x40]))
